@@ -34,7 +34,7 @@ type StructDesc struct {
 }
 
 type BuildOp struct {
-	Kind      string // addgroup | addcommand | setcmd | setgrp
+	Kind      string // addgroup | addcommand | setcmd | setgrp | setopt (public fields of the model assigned by the program)
 	Target    int    // uid of the command operated on
 	Name      string
 	Short     string
@@ -44,6 +44,7 @@ type BuildOp struct {
 	Usage     *string
 	Attr      string
 	Gi        int
+	Oi        int
 	Vals      []string
 }
 
@@ -153,6 +154,8 @@ func (c *Case) Lines(cols int) []string {
 			out = append(out, fmt.Sprintf("setcmd %d %s %s", b.Target, b.Attr, strings.Join(b.Vals, " ")))
 		case "setgrp":
 			out = append(out, fmt.Sprintf("setgrp %d %d %s %s", b.Target, b.Gi, b.Attr, strings.Join(b.Vals, " ")))
+		case "setopt":
+			out = append(out, fmt.Sprintf("setopt %d %d %d %s %s", b.Target, b.Gi, b.Oi, b.Attr, strings.Join(b.Vals, " ")))
 		}
 	}
 	for i := range c.Build {
@@ -499,6 +502,9 @@ func (r *Real) applyBuild(b *BuildOp) []string {
 				as = append(as, s)
 			}
 			target.Aliases = as
+		case "name":
+			s, _ := unhx(b.Vals[0])
+			target.Name = s
 		case "ns":
 			s, _ := unhx(b.Vals[0])
 			target.Namespace = s
@@ -508,6 +514,39 @@ func (r *Real) applyBuild(b *BuildOp) []string {
 		case "longdesc":
 			s, _ := unhx(b.Vals[0])
 			target.LongDescription = s
+		}
+	case "setopt":
+		o := allGroups(target)[b.Gi].Options()[b.Oi]
+		var vs []string
+		for _, v := range b.Vals {
+			x, _ := unhx(v)
+			vs = append(vs, x)
+		}
+		first := ""
+		if len(vs) > 0 {
+			first = vs[0]
+		}
+		switch b.Attr {
+		case "long":
+			o.LongName = first
+		case "short":
+			o.ShortName = 0
+			for _, rn := range first {
+				o.ShortName = rn
+				break
+			}
+		case "choices":
+			o.Choices = vs
+		case "mask":
+			o.DefaultMask = first
+		case "default":
+			o.Default = vs
+		case "desc":
+			o.Description = first
+		case "required":
+			o.Required = first == "1"
+		case "hidden":
+			o.Hidden = first == "1"
 		}
 	case "setgrp":
 		g := allGroups(target)[b.Gi]
